@@ -88,8 +88,9 @@ class KeySet(sm.SM):
 
     def record_and_validate(self, out, prop, tier, seed):
         wd = vf.workdir("KeySet_trace")
-        sessions, steps = (12, 150) if tier == "quick" else (150, 250)
-        for name, history, initkeys in (("H0", 0, 0), ("H1", 1, 2), ("H3", 3, 2)):
+        sessions, steps = (10, 150) if tier == "quick" else (150, 250)
+        cfgs = (("H1", 1, 2),) if tier == "quick" else (("H0", 0, 0), ("H1", 1, 2), ("H3", 3, 2))
+        for name, history, initkeys in cfgs:
             tf = os.path.join(wd, "trace_%s_%s.ndjson" % (name, prop))
             cfg = {"History": history, "M": 65536, "InitOffset": 65534, "InitKeys": initkeys,
                    "trunc": self.observed["trunc"], "mode": self.observed["mode"]}
